@@ -241,8 +241,14 @@ impl<'a> Ex<'a> {
             }
         };
         let tagb = &mem[e.off..(e.off + round8(e.size)).min(mem.len())];
+        if tagb.len() < 20 {
+            // a tag that cannot even hold the three count words: nothing the harness
+            // could say about the entries (the engines watch the reads)
+            ctx.count("elf:iterator-from-tag-below-fixed-part");
+            return;
+        }
         let (n, es, sh) = (le32(tagb, 8) as u64, le32(tagb, 12) as u64, le32(tagb, 16) as u64);
-        let seclen = (e.size - 20) as u64;
+        let seclen = e.size.saturating_sub(20) as u64;
         let strtab_inside = sh * es + es <= seclen && (es == 40 || es == 64);
         let strtab_addr_ok = strtab_inside && !gen::fake_names() && {
             let o = 20 + (sh * es) as usize;
@@ -267,6 +273,14 @@ impl<'a> Ex<'a> {
                     return;
                 }
                 Out::Val(Some(s)) => {
+                    if self.opts.strict_extent && n.saturating_mul(es) > seclen {
+                        // C15: the entries the typed view exposes are not all part of the tag's bytes
+                        ctx.violation(
+                            "view-outside-its-tag:elf.section-entries",
+                            J::s(format!("a section was yielded although {} entries of {} bytes do not fit the {} section bytes of a tag of declared size {}", n, es, seclen, e.size)),
+                        );
+                        return;
+                    }
                     let r = catch(|| (s.section_type_raw(), s.flags().bits(), s.start_address(), s.size(), s.addralign(), s.is_allocated(), s.section_type() as u32));
                     tl!(self.tr, "   section {:?}", r);
                     let _ = catch(|| s.end_address());
